@@ -70,11 +70,16 @@ pub fn c10(o: &Opts) -> i32 {
     let mut evaluations = 0u64;
     // sparse positions to depth 5: the same position recurs at different remaining depths inside one subtree
     if o.replay.is_none() {
-        for fen in ["8/8/8/8/3K4/8/8/k7 w - - 0 1", "8/8/4k3/8/8/2K5/8/8 w - - 0 1", "8/8/8/3k4/8/3K4/3P4/8 w - - 0 1", "8/3p4/3k4/8/8/3K4/3P4/8 b - - 0 1"] {
-            let p = Pos::from_fen(fen).unwrap();
-            let d = 5u32;
+        let mut sparse: Vec<(Pos, u32)> = ["8/8/8/8/3K4/8/8/k7 w - - 0 1", "8/8/4k3/8/8/2K5/8/8 w - - 0 1", "8/8/8/3k4/8/3K4/3P4/8 w - - 0 1", "8/3p4/3k4/8/8/3K4/3P4/8 b - - 0 1"].iter().map(|f| (Pos::from_fen(f).unwrap(), 5u32)).collect();
+        // pawn endings without any slider in which promotions fall inside the horizon (the first sliders appear deep in the tree)
+        for f in ["4k3/P6P/8/8/8/8/p6p/4K3 w - - 0 1", "8/1P3k2/8/8/8/8/2K3p1/8 b - - 0 1", "8/PPP4k/8/8/8/8/K4ppp/8 w - - 0 1"] { if let Ok(p) = Pos::from_fen(f) { if p.is_consistent() { sparse.push((p, 3)); } } }
+        // every corpus position with an en-passant target (pins, discovered checks, the capture answering a pawn check)
+        for (p, _) in corpus.iter() { if p.ep.is_some() && p.piece_count() <= 8 { sparse.push((p.clone(), 2)); } }
+        // en-passant-rich sparse set-ups
+        for _ in 0..if q { 4 } else { 30 } { sparse.push((gen::ep_rich_sparse(&mut r), 4)); }
+        for (p, d) in sparse {
             let want = reference_cum(&p, d);
-            for (mode, pool) in [("fresh", 4usize), ("used", 2)] {
+            for (mode, pool) in [("fresh", 4usize), ("used", 2), ("fresh", 8)] {
                 let got = if mode == "fresh" { engine_count(&mut MoveGenerator::new(), &p, d, pool) } else { engine_count(&mut used, &p, d, pool) };
                 evaluations += 1; ctx.count("sparse_positions_to_depth_5", 1);
                 ctx.distinct(p.key_hash() ^ 5 << 60 ^ (pool as u64) << 50);
